@@ -29,6 +29,7 @@ VALUE_COMBINATORS = ('Option::map', 'Option::map_or', 'Option::map_or_else', 'Op
                      'Result::map', 'Result::map_err', 'Result::and_then', 'Result::unwrap_or_else',
                      'Result::is_ok_and', 'Result::is_err_and', 'Result::map_or')
 DIRECT_CALLS = ('Fn::call', 'FnMut::call_mut', 'FnOnce::call_once')
+SCOPED = ('LocalKey::with',)
 PASS_THROUGH = ('IntoIterator::into_iter',)
 
 
@@ -165,6 +166,12 @@ class Desugarer:
     def closure_of(self, B, op, depth=0):
         """(closure path, upvar operands, local holding the closure) for an operand, following moves
         and references; None when the operand is not (provably) one closure of this crate."""
+        if op.get('k') == 'const' and ('fn' in op or 'fn_resolved' in op):
+            # a function item used as the callable (`.map(helper)`): only local, non-generic-dispatch ones
+            path = op.get('fn_resolved') or op.get('fn')
+            if path in self.raw and self.raw[path]['kind'] != 'Closure':
+                return (path, [], None)
+            return None
         if depth > 6 or op.get('k') not in ('move', 'copy') or op['place']['p']:
             return None
         l = op['place']['l']
@@ -190,7 +197,8 @@ class Desugarer:
         loff, boff, poff = len(B.locals), len(B.blocks), len(B.promoted)
         B.locals += g['locals']
         B.promoted += g.get('promoted', [])
-        env = loff + 1
+        is_fn = g['kind'] != 'Closure'
+        env = -1 if is_fn else loff + 1
 
         def subst(place):
             l = place['l'] + loff
@@ -237,16 +245,16 @@ class Desugarer:
             nb['term'] = tt
             B.blocks.append(nb)
         for d in g.get('debug', []):
-            if d['place']['l'] != 1:
+            if is_fn or d['place']['l'] != 1:
                 B.debug.append(dict(d, place=dict(d['place'], l=d['place']['l'] + loff)))
-        binds = [assign(loff + 2 + i, use(a), span) for i, a in enumerate(args)]
+        binds = [assign(loff + (1 if is_fn else 2) + i, use(a), span) for i, a in enumerate(args)]
         B._defs = None
         B.expanded.append(cpath)
         return B.block(binds, goto(boff, span))
 
     def param_ty(self, clos, i):
         g = self.raw[clos[0]]
-        idx = 2 + i
+        idx = (1 if g['kind'] != 'Closure' else 2) + i
         return g['locals'][idx]['ty'] if idx < len(g['locals']) and idx <= g['arg_count'] else ''
 
     def ret_ty(self, clos):
@@ -614,6 +622,22 @@ class Desugarer:
                     if self.expand_value(B, bi, t, kind, closes):
                         return True
                 continue
+            kind = _is(callee, SCOPED)
+            if kind and len(t['args']) == 2 and t['target'] is not None:
+                clos = self.closure_of(B, t['args'][1])
+                if clos and self.should_expand(clos[0], kind, B.j):
+                    # `KEY.with(|v| body)`: body runs once on a reference to the thread-local value
+                    span = t['span']
+                    x = B.local(self.param_ty(clos, 0) or '&_')
+                    entry = self.splice(B, clos, [mv(x)], t['dest'], t['target'], span)
+                    B.blocks[bi] = dict(B.blocks[bi], term={
+                        'k': 'call', 'decl': 'desugar::thread_local', 'full': 'desugar::thread_local',
+                        'callee': 'desugar::thread_local', 'local': False, 'targs': [], 'args': [t['args'][0]],
+                        'dest': P(x), 'target': entry, 'unwind': 'continue', 'span': span, 'exp': True,
+                        'synthetic': True})
+                    B._defs = None
+                    return True
+                continue
             kind = _is(callee, DIRECT_CALLS)
             if kind and t['args']:
                 clos = self.closure_of(B, t['args'][0])
@@ -651,7 +675,7 @@ class Desugarer:
         if not n:
             return j
         nj = dict(j, blocks=B.blocks, locals=B.locals, promoted=B.promoted, debug=B.debug)
-        nj['desugared'] = sorted(set(B.expanded))
+        nj['desugared'] = sorted(set(B.expanded) | set(j.get('desugared', [])))
         return nj
 
 
